@@ -23,7 +23,7 @@ RULE = ('samples/arrays with 2..6 channels x lists of distinct injective curves 
 ASSUMPTIONS = ['curves are pure functions; expected column computed by calling the same curve object on the same '
                'float64 column view (bitwise comparison)']
 MIN_CHECKS = {'quick': 8000, 'thorough': 150000}
-REQUIRED_COUNTERS = ['chk:mef', 'chk:refusal']
+REQUIRED_COUNTERS = ['chk:mef', 'chk:refusal', 'chk:form']
 
 
 def curves(rng, k):
@@ -94,6 +94,19 @@ def run(ctx):
                 o = core.attempt(to_mef, s, rq, sc_list, sc_ch)
                 ctx.check(not o.raised, 'mef:valid-call-refused', cid, exc=core.exc_str(o.exc) if o.raised else None,
                           request=rq, sc_channels=sc_ch)
+                # the same call with the list arguments in another legal form (tuple, ndarray, NumPy ints/strings):
+                # a refused form is observed only, an accepted form is judged by the in-situ monitor and must agree
+                if not o.raised and isinstance(rq, list) and rng.random() < 0.5:
+                    f1, frq = core.pick_form(rng, rq)
+                    f2, fsc = core.pick_form(rng, sc_ch)
+                    fl = tuple(sc_list) if rng.random() < 0.5 else sc_list
+                    o2 = core.attempt(to_mef, s, frq, fl, fsc)
+                    ctx.counters['chk:form'] += 1
+                    if o2.raised:
+                        ctx.note('form-refused:%s/%s' % (f1, f2))
+                    else:
+                        ctx.check(np.asarray(o2.value).tobytes() == np.asarray(o.value).tobytes(),
+                                  'form:result-depends-on-argument-form', cid, forms=[f1, f2], request=rq, sc_channels=sc_ch)
                 nt = k >= 2 and req is not None and [p for p in sc_pos if p in req] != list(req)
                 ctx.case_done(class_key=('call', ('int', 'float', 'array')[kind], k, 'none' if req is None else len(req)),
                               nontrivial=nt, distinct_key=core.digest(cid, pi, req),
